@@ -22,7 +22,7 @@ pub struct GenParams {
 }
 
 pub const PAYOFF_FAMILIES: usize = 10;
-pub const WEIGHT_FAMILIES: usize = 5;
+pub const WEIGHT_FAMILIES: usize = 6;
 
 impl GenParams {
     /// A random parameter set; `size` in 0..=3 scales depth and node budget
@@ -107,6 +107,9 @@ impl Builder<'_> {
                 1 => 0.1 + 0.9 * r.unit(),
                 2 => 10f64.powf(-9.0 * r.unit()),
                 3 => 10f64.powf(9.0 * r.unit()),
+                // small dyadic weights written in deep-subnormal units (positive and finite, hence
+                // legal; the sums are exact): anything that forms 1/total overflows here
+                5 => (2.0f64).powi(r.range(0, 4) as i32) * (2.0f64).powi(-520) * (2.0f64).powi(-530),
                 _ => (2.0f64).powi(r.range(0, 6) as i32 - 3),
             })
             .collect()
